@@ -318,7 +318,8 @@ class EditStream(HTMLHandlerBase):
         current_stream.timing_reference = None
         timing_reference = params.get('timing_ref', '')
         if timing_reference != '':
-            mf = models.MediaFile.get(name=Path(timing_reference).stem)
+            mf = models.MediaFile.get(
+                name=Path(timing_reference).stem, stream_pk=current_stream.pk)
             if not mf:
                 return flask.make_response(
                     f'Invalid timing_reference "{html.escape(timing_reference)}"', 400)
